@@ -76,6 +76,54 @@ class _SubsequentResultContext:
         self.has_next = True
 
 
+class _SubsequentResults:
+    """The stream of subsequent results, cleaning up even when closed unstarted.
+
+    An async generator that has not been started yet does not run its ``finally``
+    clause when it is closed, so the cleanup must be run explicitly in that case.
+    """
+
+    __slots__ = "_context", "_generator", "_started", "_work_queue"
+
+    def __init__(
+        self,
+        generator: AsyncGenerator[SubsequentIncrementalExecutionResult, None],
+        work_queue: WorkQueue,
+        context: IncrementalPublisherContext,
+    ) -> None:
+        self._generator = generator
+        self._work_queue = work_queue
+        self._context = context
+        self._started = False
+
+    def __aiter__(self) -> _SubsequentResults:
+        return self
+
+    def __anext__(self) -> Any:
+        self._started = True
+        return self._generator.__anext__()
+
+    def asend(self, value: Any) -> Any:
+        self._started = True
+        return self._generator.asend(value)
+
+    def athrow(self, *args: Any) -> Any:
+        self._started = True
+        return self._generator.athrow(*args)
+
+    async def aclose(self) -> None:
+        if not self._started:
+            self._started = True
+            try:
+                await self._work_queue.cancel()
+                await self._context.cancel_incremental_work()
+                self._context.run_async_work_finished_hook()
+            finally:
+                await self._generator.aclose()
+            return
+        await self._generator.aclose()
+
+
 class IncrementalPublisher:
     """Publish incremental results.
 
@@ -117,7 +165,8 @@ class IncrementalPublisher:
         )
 
         return ExperimentalIncrementalExecutionResults(
-            initial_result, self._subscribe(work_queue, context)
+            initial_result,
+            _SubsequentResults(self._subscribe(work_queue, context), work_queue, context),
         )
 
     def _ensure_id(self, node: DeliveryGroup | ItemStream) -> str:
